@@ -42,7 +42,8 @@ EXTRA = {
     "trusted_base": ["pandas DataFrame.itertuples() / Series.tolist() as the observation of table contents"],
 }
 
-NUM_UNITS = ["m", "mm", "-", "kg", "C"]
+# units / destinations differing only in letter case or surrounding blanks are different units / destinations
+NUM_UNITS = ["m", "mm", "-", "kg", "C", "c", " m", "KG", "m "]
 NAMES = ["t", "tab", "T", "é_1", "t "]
 COLNAMES = ["a", "b", "c", "d", "A", "col é", "x_1"]
 # column names that are different strings but collide or break as Python identifiers (namedtuple field names):
@@ -51,7 +52,7 @@ COLNAMES = ["a", "b", "c", "d", "A", "col é", "x_1"]
 CONFUSABLE_PAIRS = [("\u00e9", "e\u0301"), ("\uff41", "a"), ("class", "def"), ("1a", "a"), ("_1", "_2"), ("_0", "a"),
                     ("\u212b", "\u00c5"), ("for", "_3"), ("a b", "a_b"), ("Index", "index")]
 COLNAMES = COLNAMES + ["\u00e9", "e\u0301", "\uff41", "class", "1a", "_1", "Index"]
-DESTS = [["all"], ["x", "y"], ["y", "x", "z"], ["all", "x"], []]
+DESTS = [["all"], ["x", "y"], ["y", "x", "z"], ["all", "x"], [], ["All"], ["x ", "y"], ["X", "y"], [" all"]]
 # tz-aware instants: {"tsz": [wall-clock iso, zone]}; the first two are the same instant in different zones
 TSZ = [{"tsz": ["2020-01-01T12:00:00", "UTC"]}, {"tsz": ["2020-01-01T13:00:00", "Europe/Copenhagen"]},
        {"tsz": ["2020-01-01T12:00:00", "Europe/Copenhagen"]}, {"tsz": ["2020-06-01T12:00:00", "UTC"]},
@@ -390,7 +391,7 @@ def gen_spec(rng, small=False):
         return {"cls": "Table", "name": "t", "dests": ["all"], "cols": [col], "nrows": n, "index": None,
                 "transposed": rng.random() < 0.5, "origin": rng.choice(["", "a.csv"])}
     n = rng.choice([0, 1, 2, 3, 4, 6])
-    ncol = rng.choice([0, 1, 2, 3, 4])
+    ncol = rng.choice([0, 1, 2, 3, 4, 4, 6, 9])
     names = rng.sample(COLNAMES, ncol)
     cols = [gen_col(rng, nm, n, rng.choice(KINDS + ["object", "int", "float"])) for nm in names]
     if cols and n and rng.random() < 0.3:
@@ -603,6 +604,24 @@ def mutate(rng, spec, kind):
     raise InfraError("unknown mutation " + kind)
 
 
+def scalar_comparator():
+    """`pdtable.proxy._equal_or_same` when the library has such a function (it is private: it may be inlined or
+    renamed), else the same question asked through the public surface: two one-cell tables"""
+    import numpy as np
+    import pandas as pd
+    from pdtable import Table, proxy
+    f = getattr(proxy, "_equal_or_same", None)
+    if callable(f):
+        return f, "_equal_or_same"
+
+    def one_cell(x):
+        a = np.empty(1, dtype=object)
+        a[0] = x
+        return Table(pd.DataFrame({"c": pd.Series(a, dtype=object)}), name="t", units=["text"])
+
+    return (lambda x, y: one_cell(x).equals(one_cell(y))), "one-cell tables"
+
+
 def scalar_pool():
     import numpy as np
     import pandas as pd
@@ -781,12 +800,12 @@ def ladder_cases(rng, tier, seed):
         idx -= 1
         for k, pos in enumerate(positions):
             yield {"seed": seed, "index": idx, "mutation": "ladder:cell", "expected": False, "rows": n, "cell_row": pos,
-                   "a": table(), "b": table(pos, k % 3), "nomodel": not (small or pos == n - 1)}
+                   "a": table(), "b": table(pos, k % 3), "nomodel": not ((small and k % 6 == 0) or pos == n - 1)}
             idx -= 1
 
 
 def cases(rng, tier, seed):
-    n = 1500 if tier == "thorough" else 110
+    n = 1500 if tier == "thorough" else 85
     idx = 0
     for rnd in range(n):
         base = gen_spec(rng)
@@ -901,8 +920,9 @@ def cases(rng, tier, seed):
 
 
 def run(tier, seed, model_ok, translator, search=False):
-    from pdtable.proxy import _equal_or_same
+    _equal_or_same, how = scalar_comparator()
     out = Outcome()
+    out.count("scalar_comparison_via:" + how)
     out.rule = ("pairs (t, mutate t) for every single-aspect mutation of a random table (0-6 rows, 0-4 columns of "
                 "kinds int/float/bool/str/object/datetime/Int64/Float64/boolean/string with NaN/None/NaT/pd.NA), "
                 "unrelated random pairs from a small and a large space, non-default indexes, histories (compare, edit name / "
@@ -965,7 +985,7 @@ def replay(rep):
     if "a" in inp and "b" in inp:
         eval_pair(inp, out, [], [], False, record=False)
     elif "equal_or_same" in inp:
-        from pdtable.proxy import _equal_or_same
+        _equal_or_same, _ = scalar_comparator()
         pool = {repr(x): x for x in scalar_pool()}
         x, y = pool.get(inp["equal_or_same"][0]), pool.get(inp["equal_or_same"][1])
         with warnings.catch_warnings():
